@@ -244,6 +244,10 @@ def _case(tdk, sk):
             extra_args = ['--trash-dir', '/h/lt']
         text, pval, dtext = shape(sk, base_abs, base_rel)
         nodes = [W.d(home), W.d('/v/.Trash', 0o1777), W.d(base_abs), W.f('/v/keep', 'KEEP', 0o644, 800)]
+        if t == 'alt':
+            # the volume ALSO has a valid, used-before $topdir/.Trash/$uid (now empty): .Trash-$uid is still a trash
+            # directory of this volume for every reader
+            nodes += [W.d('/v/.Trash/1000', 0o700), W.d('/v/.Trash/1000/files', 0o700), W.d('/v/.Trash/1000/info', 0o700)]
         nodes += K.trashed(td, 'e', None, None, 'file', 2000, raw_info=text)
         if t.startswith('trash-dir-opt-through'):
             nodes.append(W.l('/h/lt', td, 811))
